@@ -19,7 +19,8 @@
           exactly the recorded deposits; gasUsed <= gasLimit; header gasUsed = sum; no negative balance;
           a discarded transaction costs nothing.
      C11  votes[c] = deposit votes + current voters' balance votes for registered candidates, else 0, never negative
-          - at the end of EVERY block, reward blocks (reward issue, refunds, then the vote pass) included.
+          - at the end of EVERY block, reward blocks (reward issue, refunds, then the vote pass) included; the votes the
+          node's candidate ranking records for a listed candidate are the votes of its account (RankOK).
      C12  per asset code and asset id (all three categories; the reset event names every code's category, flags and
           issuer; the state carries supply / freeze per code, every holder's equity per id - only non-zero ones are
           logged - and the code recorded with each id): equity / supply move only as issuer issue / replenish, holder
@@ -62,11 +63,16 @@ C05Dev(e) == LET k == "Dev_BoxSubGasMinted" IN
 \* reproduce the logged balances - as they should be or, where a box was packaged, as C05's known defect Dev_BoxSubGasMinted
 \* leaves the income account (balances are judged by C05, not here; the income account is a voter too).
 BalDevs == {{}, {"Dev_BoxSubGasMinted"}}
-C11OK(e) == IF VotesOK(c, cur) THEN VotesOK(c, e.post)
-            ELSE (\E bd \in BalDevs : LET x == X(e, bd) IN               \* after an accepted deviation: the block itself must still be right
-                                         e.post.bal = x.s.bal /\ e.post.votes = x.s.votes) = TRUE
+\* The node keeps a second record of every candidate's votes: the candidate RANKING of the block (the list the election
+\* of the next term reads; store.GetCandidatesTop), maintained from the votes change logs of the blocks.  Whoever is listed
+\* there is listed with exactly the votes of its account (who must be listed is C10's subject).
+RankOK(s) == \A x \in DOMAIN s.rank : s.rank[x] = s.votes[x]
+C11Votes(e) == IF VotesOK(c, cur) THEN VotesOK(c, e.post)
+               ELSE (\E bd \in BalDevs : LET x == X(e, bd) IN               \* after an accepted deviation: the block itself must still be right
+                                            e.post.bal = x.s.bal /\ e.post.votes = x.s.votes) = TRUE
+C11OK(e) == RankOK(e.post) /\ C11Votes(e)
 C11Dev(e) == LET k == "Dev_VoteUsesPreTxBalance" IN
-             /\ Has(k) /\ ~C11OK(e)
+             /\ Has(k) /\ ~C11OK(e) /\ RankOK(e.post)
              /\ (\E bd \in BalDevs : LET x == X(e, bd \cup {k})  y == X(e, bd) IN
                                        e.post.bal = x.s.bal /\ e.post.votes = x.s.votes /\ y.s.votes # x.s.votes) = TRUE
              /\ UseDev(k)
@@ -87,19 +93,28 @@ TReset == /\ Ev("reset") /\ E.inexact = <<>>
                    deps |-> [k \in 1..Len(E.deps) |-> ToSet(E.deps[k])], payees |-> E.payees,
                    prec |-> E.prec, rm |-> E.rm, rc |-> E.rc, rpool |-> E.rpool, assets |-> E.assets]
           /\ cur' = Norm(E.st) /\ split' = FALSE
-          /\ NonNegBal(E.st) /\ VotesOK(c', E.st) /\ SupplyOK(c', cur')
-TxEvents == {"Transfer", "Vote", "Register", "TopUp", "Unregister", "SetReward", "Issue", "Replenish", "AssetTransfer", "Freeze", "Box"}
+          /\ NonNegBal(E.st) /\ VotesOK(c', E.st) /\ SupplyOK(c', cur') /\ (Check = "C11" => RankOK(E.st))
+TxEvents == {"Transfer", "Vote", "VoteBy", "SpendAll", "MixedBox", "Register", "TopUp", "Unregister", "SetReward", "Issue", "Replenish", "AssetTransfer", "Freeze", "Box"}
 TTx == /\ \E n \in TxEvents : Ev(n)
        /\ Judge(E) /\ UNCHANGED <<c, cur, split>>
 \* Known defect, third face: a DISCARDED negative transfer to an account that does not hold the asset leaves a trace in
 \* the miner's account manager (the equity change log is pushed before the negative value fails to encode); the block
 \* the miner then seals carries change logs the validator cannot reproduce and is refused ("changeLogs is incorrect").
 NegDiscarded(q) == \E i \in 1..Len(q) : q[i].k = "axfer" /\ q[i].amt < 0 /\ ~q[i].inc
+\* Known defect of the account tries (same family): a box that the miner GIVES UP (a later sub transaction is invalid) after
+\* an earlier sub transaction wrote a FIRST entry into a trie of an account - asset equity / asset id metadata of somebody
+\* who never held that id - leaves the hash of the EMPTY trie instead of the zero hash as that trie's root in the miner's
+\* account manager; when a later transaction of the block changes that account in any other way, the sealed block carries a
+\* root change log the validator cannot reproduce and is refused ("changeLogs is incorrect").
+GivenUpAssetBox(q) == \E i \in 1..Len(q) : /\ q[i].k = "box" /\ ~q[i].inc /\ ~q[i].left
+                                           /\ \E j \in 1..Len(q[i].subs) : q[i].subs[j].k \in {"axfer", "issue", "repl"}
 TEnd == /\ Ev("EndBlock")
         /\ \/ E.vok /\ split' = split      \* the block the real miner sealed is accepted and executed by the real validator
            \/ /\ ~E.vok /\ split /\ split' = split              \* its parent was refused before
            \/ /\ ~E.vok /\ ~split /\ Check = "C12" /\ Has("Dev_NegativeAssetTransferSplitsMinerValidator") /\ NegDiscarded(E.txs)
               /\ UseDev("Dev_NegativeAssetTransferSplitsMinerValidator") /\ split' = TRUE
+           \/ /\ ~E.vok /\ ~split /\ Check = "C12" /\ Has("Dev_RevertedFirstEntrySplitsMinerValidator") /\ GivenUpAssetBox(E.txs)
+              /\ ~NegDiscarded(E.txs) /\ UseDev("Dev_RevertedFirstEntrySplitsMinerValidator") /\ split' = TRUE
         /\ Judge(E) /\ cur' = Norm(E.post) /\ UNCHANGED c
 \* Known defect, second face: a negative transferAmount to an account that does not hold the asset yet makes the
 \* processor PANIC while mining (the negative equity cannot be RLP-encoded, the revert then trips over the first-equity
